@@ -1084,6 +1084,9 @@ type c12Search struct {
 	r    *mc.R
 	cfg  *c12Config
 	seen map[c12Key32]struct{}
+	// shallow: replay mode; only the reached state is checked (refused events, completion, stuck), its
+	// successors are executed to decide "stuck" but neither reported nor expanded.
+	shallow bool
 	// statistics
 	finals, maxDepth int
 }
@@ -1188,9 +1191,11 @@ func (s *c12Search) expand(ops []string, w *c12World, k c12Key32, wb *c12Whitebo
 		s.r.Eval(1)
 		seq := append(append([]string{}, ops...), ev)
 		if err := mc.Safely(func() error { return w2.apply(ev) }); err != nil {
-			s.violation(seq, err)
-			s.r.Outcome("violation")
 			progressed = true
+			if !s.shallow {
+				s.violation(seq, err)
+				s.r.Outcome("violation")
+			}
 			continue
 		}
 		k2, wb2 := w2.key()
@@ -1200,7 +1205,7 @@ func (s *c12Search) expand(ops []string, w *c12World, k c12Key32, wb *c12Whitebo
 		}
 		progressed = true
 		s.r.Outcome(ev[:strings.IndexAny(ev+":", ":")])
-		if _, dup := s.seen[k2]; dup {
+		if _, dup := s.seen[k2]; dup || s.shallow {
 			continue
 		}
 		s.seen[k2] = struct{}{}
@@ -1247,9 +1252,9 @@ func (c *c12Config) runReplay(r *mc.R, ops []string) {
 		}
 		k, wb = k2, wb2
 	}
-	// state checks of the reached state (refused events, final check, stuck check) and everything below it;
-	// violations found deeper carry their own keys.
+	// state checks of the reached state (refused events, final check, stuck check)
 	s.seen[k] = struct{}{}
+	s.shallow = true
 	s.expand(ops, w, k, wb)
 }
 
